@@ -162,6 +162,17 @@ func (v *Verifier) VerifyFunction(key string) {
 		}
 		so := v.tm.SortOf(el)
 		t := c.Const(fc.short+".free."+fv.Name(), so)
+		if fc.writesFreeVar(fv) {
+			// the literal assigns to the captured variable: it lives in a pre-existing object of its own (entry value t)
+			ref := c.Const(fc.short+".freeref."+fv.Name(), SInt)
+			st.assume(c, c.Cmp(">", ref, c.Int(0)))
+			st.assume(c, c.Cmp("<", ref, alloc0))
+			hk := v.heapKeyFor(el)
+			st.assume(c, c.Eq(c.Select(v.getGlobal(st, hk), ref), t))
+			fr.free[fv] = Val{Loc: &Loc{Ref: ref, HeapKey: hk, Sort: so, GoT: el, RSort: so}, GoT: fv.Type()}
+			fc.paramSV[fv.Name()] = SV{T: t, GoT: el}
+			continue
+		}
 		fr.free[fv] = Val{Loc: &Loc{Root: t, Sort: so, GoT: el}, GoT: fv.Type()}
 		fc.paramSV[fv.Name()] = SV{T: t, GoT: el}
 		fc.freeSV[fv.Name()] = SV{T: t, GoT: el}
@@ -1861,4 +1872,18 @@ func (v *Verifier) checkWired(fc *FuncCtx) {
 			Src: fmt.Sprintf("wired %s: %s#%d arg %d from %s", w.Label, w.Callee, w.Nth, w.Arg, w.Source), Note: "structural (SSA data flow, no solver reasoning): " + why})
 	}
 	v.notes[fc.key+": structural contract - the function is not executed symbolically; only the wired clauses are checked over its SSA"] = true
+}
+
+// writesFreeVar: the function literal stores into the captured variable itself (not through a pointer it holds).
+func (fc *FuncCtx) writesFreeVar(fv *ssa.FreeVar) bool {
+	refs := fv.Referrers()
+	if refs == nil {
+		return false
+	}
+	for _, r := range *refs {
+		if s, ok := r.(*ssa.Store); ok && s.Addr == fv {
+			return true
+		}
+	}
+	return false
 }
